@@ -8,7 +8,7 @@
     ([all_fixed]: the tree the check runs against; [pinned]: the tree as found).
     Spec (Val/CoerceSpec.v): [conforms], [ref_coerce] (RefCoerce), [ref_request]. *)
 From Coq Require Import List NArith ZArith Bool.
-From ApiFu Require Import Base.Sexp Val.Values Val.CoerceModel Val.CoerceSpec Val.CoerceProofs Val.FloatExact Val.CoerceReasons Val.CoerceRefine Val.CoerceRoutes Val.CoerceSameValue Val.CoerceTotal Val.CoerceComplete Val.BridgeC04 Val.BridgeC04Proofs.
+From ApiFu Require Import Base.Sexp Val.Values Val.CoerceModel Val.CoerceSpec Val.CoerceProofs Val.FloatExact Val.CoerceReasons Val.CoerceRefine Val.CoerceRoutes Val.CoerceSameValue Val.CoerceTotal Val.CoerceComplete Val.BridgeC04 Val.BridgeC04Proofs Val.BridgeC04Doc.
 From ApiFu Require Vld.Ast Vld.ValidatorModel.
 Import ListNotations.
 
@@ -285,37 +285,87 @@ Proof. exact served_unless_runtime_reason. Qed.
 (** ** bridge to C04 (the validator model of coq/Vld): "validated" in C05's terms is C04's verdict.
     [tr_lit], [tr_sty], [tr_env] translate C05's literals (numbers as decimal text), types and type
     environments into C04's encoding; [c04_accepts E l t a] runs C04's transcription of
-    validateCoercion ([ValidatorModel.coercion repaired id_order]) on the translation.
+    validateCoercion ([ValidatorModel.coercion repaired id_order]) on the translation;
+    [tr_request_schema] / [tr_request_doc] build C04's schema and document for a whole request and
+    [c04_document_accepts] runs C04's ValidateDocument model on them.
 
-    FULL STATEMENT:  forall E dt l t a, bridgeable E = true ->
-                       c04_accepts E l t a = validate_coercion E dt l t a
+    FULL STATEMENT (C05_C04_accepts_implies_static_ok):
+      forall E dt site dname argdefs defs args, bridgeable E = true ->
+        c04_document_accepts E site dname argdefs defs args = true ->
+        static_ok all_fixed E dt site argdefs defs args = true
     ([bridgeable]: no DateTime / LongInt, whose value-dependent coercers C04's kind-level custom
-    scalars cannot express), from which C05's [static_ok] conjuncts on argument values and default
-    values follow from C04's rule_values verdict ([C04_rule_values_iff], [C04_coercion_agrees]).
+    scalars cannot express).
 
-    PROVED (partial): the statement for every literal without object values, every type and every
-    environment, given [leaves_agree] (the two models agree on scalar leaves); [leaves_agree] itself
-    for environments whose scalars do not read numbers.
-    NOT PROVED, the exact gap: (a) object literals - C04's [fields_loop] with its accumulators
-    against C05's three conjuncts; (b) [leaves_agree] for Int / Float / ID, i.e. that C04's
-    [Literals.int_lit] / [float_lit_ok] read [dec_of_Z] back and that its ParseFloat range test
-    is C05's [f64_of_decimal <> None]; (c) the document level (C04's TypeInfo expected types for a
-    C05 request, the arguments and variables rule groups against the other conjuncts of
-    [static_ok]).  (a), (b) and the verdict on every argument literal and default value are
-    evaluated on every case by the check ([bridge_agrees]; 0 disagreements, class
-    c04-bridge-evaluated); (c) is tied only through the real validator, which both models are
-    compared with. *)
-Theorem C05_C04_coercion_bridge_partial : forall E dt, leaves_agree E dt ->
-  forall l, obj_free l = true -> forall t a,
+    PROVED:
+    - validateCoercion: [C05_C04_coercion_bridge_partial] - C04's transcription equals C05's on every
+      literal (objects included), every type, every bridgeable environment; Int and ID cross as
+      decimal text that C04 reads back ([int_lit_dec]).  One leaf hypothesis is left:
+      [float_leaves_agree] (C04's ParseFloat range test [Literals.float_lit_ok] on the text m"e"k
+      = C05's rounding [f64_of_decimal m k] succeeds), not needed when the environment has no Float.
+    - the node level of the document ([C05_C04_accepts_implies_static_ok_partial]): C04's
+      validateArguments check on the node and validateCoercion on every argument value and variable
+      default, silent, give the five validateArguments / validateValues conjuncts of [static_ok]
+      ([static_ok_arguments_values], [C05_static_ok_split]).
+    - validateVariables' two pure functions are the same on both sides
+      ([C05_C04_types_compatible], [C05_C04_variable_usage]).
+    NOT PROVED, the exact gap: (a) [float_leaves_agree]; (b) that C04's NewTypeInfo ([pti_doc])
+    annotates each argument value with the declared argument type, each variable default with the
+    variable's type and each variable usage nested in a literal with the expected type and
+    location default that C05's [usage_ok] propagates, and C04's [inspect] traversal of the
+    translated document reaching exactly these nodes - i.e. the step from
+    [c04_document_accepts = true] to the node-level premises, and with it the four
+    validateVariables conjuncts.  Both are evaluated on every case by the check: [bridge_agrees] on
+    every literal and [c04_document_accepts = static_ok] on every bridgeable request (68 030 of
+    88 526 quick cases, 0 disagreements, both directions). *)
+Theorem C05_C04_coercion_bridge_partial : forall E dt, bridgeable E = true ->
+  (no_float E = true \/ float_leaves_agree dt) ->
+  forall l t a, c04_accepts E l t a = validate_coercion E dt l t a.
+Proof. exact bridge_bridgeable. Qed.
+
+(** the same under the general leaf hypothesis, for any environment *)
+Theorem C05_C04_coercion_bridge_leaves : forall E dt, leaves_agree E dt ->
+  forall l t a,
   match ValidatorModel.coercion ValidatorModel.repaired ValidatorModel.id_order (tr_env E) (tr_lit l) (tr_sty t) a with
   | ValidatorModel.VR [] => true
   | _ => false
   end = validate_coercion E dt l t a.
-Proof. exact bridge_obj_free. Qed.
+Proof. exact bridge_all. Qed.
 
-Theorem C05_C04_coercion_bridge_non_numeric_partial : forall E dt l, non_numeric E = true -> obj_free l = true ->
-  forall t a, c04_accepts E l t a = validate_coercion E dt l t a.
-Proof. exact bridge_obj_free_non_numeric. Qed.
+Theorem C05_C04_accepts_implies_static_ok_partial : forall E dt argdefs defs args p,
+  bridgeable E = true -> (no_float E = true \/ float_leaves_agree dt) ->
+  fst (ValidatorModel.args_node ValidatorModel.repaired ValidatorModel.id_order [] (tr_args 0 args) (tr_argdefs argdefs) p) = [] ->
+  (forall a d, In a args -> aget (fst a) argdefs = Some d -> c04_accepts E (snd a) (in_type d) true = true) ->
+  (forall def dflt, In def defs -> vd_default def = Some dflt ->
+                    type_known E (vd_type def) = true /\ c04_accepts E dflt (vd_type def) true = true) ->
+  static_ok_arguments_values E dt argdefs defs args = true.
+Proof. exact arguments_values_from_c04. Qed.
+
+Theorem C05_static_ok_split : forall fx E dt site argdefs defs args,
+  static_ok fx E dt site argdefs defs args =
+  static_ok_arguments_values E dt argdefs defs args
+  && negb (has_dup (map vd_name defs))
+  && forallb (fun def : vardef => type_known E (vd_type def)) defs
+  && forallb (fun a : name * lit =>
+                match aget (fst a) argdefs with
+                | Some d => usage_ok fx E defs (snd a) (Some (in_type d)) (arg_loc_default site d)
+                | None => false
+                end) args
+  && forallb (fun def : vardef =>
+                existsb (fun a : name * lit => existsb (bytes_eqb (vd_name def)) (lit_vars (snd a))) args) defs.
+Proof. exact static_ok_split. Qed.
+
+Theorem C05_C04_types_compatible : forall vt lt,
+  ValidatorModel.types_compatible (tr_sty vt) (tr_sty lt) = types_compatible lt vt.
+Proof. exact types_compatible_tr. Qed.
+
+Theorem C05_C04_variable_usage : forall E (def : vardef) (d' : Ast.vardef) loc ld dollar,
+  Ast.vd_ann d' = Some (tr_sty (vd_type def)) ->
+  Ast.vd_default d' = option_map tr_lit (vd_default def) ->
+  type_known E (vd_type def) = true ->
+  match ValidatorModel.variable_usage d' {| Ast.va_expected := Some (tr_sty loc); Ast.va_default := ld; Ast.va_scalar := false |} dollar with
+  | [] => true | _ => false end
+  = var_usage_ok E def loc ld.
+Proof. exact variable_usage_tr. Qed.
 
 (** the repaired defects: the same statements are false of the code as found *)
 Theorem C05_args_conform_refuted_before_fix :
@@ -370,7 +420,11 @@ Print Assumptions C05_variable_values_complete.
 Print Assumptions C05_absent_item_variable_is_error.
 Print Assumptions C05_served_unless_runtime_reason.
 Print Assumptions C05_C04_coercion_bridge_partial.
-Print Assumptions C05_C04_coercion_bridge_non_numeric_partial.
+Print Assumptions C05_C04_coercion_bridge_leaves.
+Print Assumptions C05_C04_accepts_implies_static_ok_partial.
+Print Assumptions C05_static_ok_split.
+Print Assumptions C05_C04_types_compatible.
+Print Assumptions C05_C04_variable_usage.
 Print Assumptions C05_route_independent.
 Print Assumptions C05_integer_literal_is_exact_float.
 Print Assumptions C05_validator_types_differ_in_non_null_only.
